@@ -5,6 +5,7 @@ import json, sys
 EA = "E-A REPLICA-OPSEQ"
 EB = "E-B CTRL-BFS"
 EC = "E-C FS-CRASH"
+EF = "E-F CLUSTER"
 checks = {
  "C06": dict(engine=EA, design="§3 E-A, §4 C06",
    text="Explicit-state BFS over every operation sequence (writes of each shape, user/automatic snapshots, system-performed removals, mark-removed, reopen with preload, rebuild-style reload+UpdateLUNMap, revert) up to the stated depth on a real on-disk replica with hole punching on; in every reachable state every retained user snapshot is compared byte-for-byte with the reference model, both by an independent extent walk over the chain files and by copying the directory, reverting the copy with the real code and reading it.",
@@ -64,6 +65,10 @@ checks = {
    text="Explicit-state BFS over every event kind including duplicates and unknown addresses (register, start by the wrong replica, add of an attached address, verify of any address, remove of unknown, REST ERR/RW, I/O with one failing subset, monitor failures and delayed wake-ups, restarts) with 3-4 node identities: in every quiescent state addresses are unique, at most RF data replicas, at most one WO, RWReplicaCount equals the RW entries, replica list and backend map agree, writer/reader index maps are exactly the non-ERR / RW backends; a detached backend never receives a call.",
    note="Model nodes. Invariants are evaluated in quiescent states (no undelivered monitor wake-up); per-call oracles run always.",
    technique="explicit-state BFS with replay on the real controller"),
+ "C07": dict(engine=EF, design="§3 E-F, §4 C07",
+   text="Explicit-state BFS on an in-process cluster of REAL replica.Server nodes behind the real replica/rest and controller/rest routers, with the real sync.Task.AddReplica running for the joining replica under step control: every top-level HTTP request of the task and the unlocked window inside UpdateLUNMap is a gate, and at every gate the explorer may insert foreground writes (also onto blocks that are being synced), a read, or kill the joining process (then monitor failure, restart and a retried rebuild); joiner empty or diverged (it missed writes and an add-time snapshot). At promotion the rebuilt replica's chain, revision counter, live image and every snapshot image (revert-on-copy) must equal the source's; before promotion no read is served by it and it holds every write acknowledged since it was attached; never two WO replicas; a killed rebuild leaves it out of the reader list.",
+   note="Stand-in: jiva's sync-agent (a process launcher around ssync/sfold) is replaced by an in-process transfer with the same result (destination = source, data and holes, written into the existing inode). Several replica.Server in one process share package globals (HoleCreatorChan, ShouldPunchHoles). The background snapshot cleaner's ticker is not driven. RF=3, 4-block volume, <=3 foreground writes per rebuild.",
+   technique="explicit-state BFS over gate-by-gate interleavings of the real rebuild task with foreground I/O on real replicas"),
  "C08": dict(engine=EC, design="§3 E-C, §4 C08", level="fault_enumeration",
    text="For every (pre-state, operation) pair of a bounded set, a ptrace tracer stops the real replica process at the entry of every file-system call of the operation: the directory as it is at each boundary is copied (= process death there), reopened with the real code and compared with the reference (chain before or after, acknowledged bytes, retained snapshots by revert-on-copy, revision counter); every single call is also made to fail with ENOSPC/EIO and the reported outcome is compared with the reopened state; the call trace of every successful operation is linted for directory fsync after namespace changes and synced metadata.",
    note="Trusted: the tracer (tools/fstrace/fstrace.c), ext4. Power-loss reordering below the syscall boundary is covered only by the durability lint. Known findings (failure reported after the commit point, success after a failed final flush) are listed in known_findings.json.",
@@ -89,6 +94,8 @@ def main():
         "kind_free_text": "explicit-state breadth-first search over operation sequences on a real on-disk replica.Server (worker processes replay path+event on a fresh replica), canonical-key deduplication, reference model oracle"},
        {"name": EB, "path": "harness/eb, harness/cmd/eb", "serves_properties": ["C02", "C03", "C04", "C05", "C09", "C13", "C18"],
         "kind_free_text": "explicit-state breadth-first search over controller events on a real controller.Controller with real *remote.Remote backends, scripted per-replica failures, harness-played monitor goroutines, model replica nodes behind the real REST clients"},
+       {"name": EF, "path": "harness/eb (rebuild.go, realnode.go), harness/cmd/eb", "serves_properties": ["C07", "C19"],
+        "kind_free_text": "E-B's cluster with real replica nodes, real REST routers and the real replica-side tasks (rebuild, clone) run under step control: explicit-state search over gate-by-gate interleavings"},
        {"name": EC, "path": "harness/ec, harness/cmd/ec, tools/fstrace", "serves_properties": ["C08", "C10"],
         "kind_free_text": "ptrace-driven enumeration of every file-system-call boundary (crash) and every single failing call of replica operations from bounded pre-states"},
      ],
